@@ -107,6 +107,9 @@ func (o Op) String() string {
 	case "ReadFrom":
 		return fmt.Sprintf("ReadFrom(%s,chunk=%d)", o.Rel, o.Chunk)
 	case "ReadFromErr":
+		if o.Chunk < 0 {
+			return fmt.Sprintf("ReadFrom(%s bytes together with source error)", o.Rel)
+		}
 		return fmt.Sprintf("ReadFrom(%s bytes then source error)", o.Rel)
 	}
 	return o.Kind
@@ -130,7 +133,11 @@ func Alphabet(S int) []Op {
 		k int
 		n string
 	}{{0, "0"}, {S, "S"}, {2*S + 1, "2S+1"}} {
-		for _, c := range []int{0, 1} {
+		// chunk -1: everything at once, io.EOF in the same Read as the last bytes
+		for _, c := range []int{0, 1, -1} {
+			if x.k == 0 && c != 0 {
+				continue // an empty source looks the same under every chunking
+			}
 			if x.k > 4096 && c == 1 {
 				c = 4093 // byte-wise sources for 64K buffers are replaced by an odd large chunk
 			}
@@ -146,6 +153,7 @@ func Alphabet(S int) []Op {
 	// a source that delivers bytes and then fails with a non-EOF error: the bytes ReadFrom
 	// reported as accepted still belong to the message
 	ops = append(ops, Op{Kind: "ReadFromErr", K: 3, Rel: "3"})
+	ops = append(ops, Op{Kind: "ReadFromErr", K: 3, Rel: "3", Chunk: -1}) // the error comes with the bytes
 	if S > 4 {
 		ops = append(ops, Op{Kind: "ReadFromErr", K: S + 2, Rel: "S+2"})
 	}
@@ -237,7 +245,11 @@ func (s *Session) Apply(o Op) *explore.Fail {
 		s.Dirty = true
 	case "ReadFrom":
 		src := env.NewSrc(Gen(s.pos, o.K))
-		src.Policy = env.FixedChunk(o.Chunk)
+		if o.Chunk < 0 {
+			src.WithLast = true
+		} else {
+			src.Policy = env.FixedChunk(o.Chunk)
+		}
 		n, err = w.ReadFrom(src)
 		if err == nil && int(n) != o.K {
 			return explore.Failf("ReadFrom-short-count", "ReadFrom(%d) returned %d, nil", o.K, n)
@@ -248,6 +260,7 @@ func (s *Session) Apply(o Op) *explore.Fail {
 	case "ReadFromErr":
 		src := env.NewSrc(Gen(s.pos, o.K))
 		src.EndErr = env.ErrSource
+		src.WithLast = o.Chunk < 0
 		var srcErr error
 		n, srcErr = w.ReadFrom(src)
 		if srcErr == nil {
